@@ -9,11 +9,39 @@ import (
 
 func init() {
 	props["C01"] = func(c *Ctx) {
-		c.Res.Rule = "case = storage capabilities (random subset of = != =~ !~ for labels and for lines) x log query AST (0-2 selector matchers; 0-5 stages of all 14 kinds: line filters incl. ip(), label predicates with and/or/parentheses over string/number/duration/bytes/ip comparisons, json/logfmt/regexp/pattern/unpack, line_format/label_format/drop/keep/decolorize, distinct) x 0-12 records (label alphabet c,d,a,zz,lvl,n x 16 values; lines from a vocabulary of words, k=v pairs, IPs, numbers, durations, sizes, non-UTF-8) x limit; evaluated through logql.Parse + Engine.Eval over a mock backend that applies exactly what it is handed; non-trivial = result neither empty nor everything, or an __error__ label is produced; distinct by request line"
+		c.Res.Rule = "case = storage capabilities (random subset of = != =~ !~ for labels and for lines) x log query AST (0-2 selector matchers; 0-5 stages of all 14 kinds: line filters incl. ip(), label predicates with and/or/parentheses over string/number/duration/bytes/ip comparisons, json/logfmt/regexp/pattern/unpack, line_format/label_format/drop/keep/decolorize, distinct) (a tenth of the regex filters under (?i), half of those a pure literal in a case the lines do not use; a tenth of the cases: a field extracted under the name of a stream label from records sharing one attribute map, then a filter on it) x 0-12 records (label alphabet c,d,a,zz,lvl,n x 16 values; lines from a vocabulary of words, k=v pairs, IPs, numbers, durations, sizes, non-UTF-8) x limit; evaluated through logql.Parse + Engine.Eval over a mock backend that applies exactly what it is handed; non-trivial = result neither empty nor everything, or an __error__ label is produced; distinct by request line"
 		spec := &Spec[LogCase]{
 			What: "LogQL.entries/group == Engine.Eval over a capability-configurable backend",
 			Gen: func(r *rand.Rand) LogCase {
 				t := genLogCase(r, allStageKinds, 5, 12)
+				if r.Intn(12) == 0 {
+					// a regex line filter that is an anchored literal (^lit$, ^lit, lit$) against lines that contain the
+					// literal without being equal to it, under every split of the line operators between storage and
+					// engine: whoever evaluates the filter must evaluate the same thing
+					lit := pick(r, []string{"error", "x", "lvl=warn", "a=1"})
+					re := reLit(lit)
+					switch r.Intn(3) {
+					case 0:
+						re = &Re{Kind: "seq", A: &Re{Kind: "bol"}, B: &Re{Kind: "seq", A: re, B: &Re{Kind: "eol"}}}
+					case 1:
+						re = &Re{Kind: "seq", A: &Re{Kind: "bol"}, B: re}
+					default:
+						re = &Re{Kind: "seq", A: re, B: &Re{Kind: "eol"}}
+					}
+					t.Stages = []LStage{{Kind: "lf", Op: pick(r, []string{"re", "nre"}), Re: re}}
+					if r.Intn(2) == 0 {
+						t.Stages = append(t.Stages, LStage{Kind: "lf", Op: pick(r, []string{"eq", "ne"}), Value: pick(r, []string{"x", "error"})})
+					}
+					t.CapsLine = distinctStrings(r, lgStrOp, r.Intn(5))
+					if r.Intn(2) == 0 {
+						// the storage knows the substring operators only
+						t.CapsLine = []string{"eq", "ne"}
+					}
+					for i := range t.Recs {
+						t.Recs[i].Body = pick(r, []string{lit, lit + " x", "x " + lit, "x " + lit + " y", "other", ""})
+					}
+					return t
+				}
 				if r.Intn(10) == 0 {
 					// an extracted field named like a stream label, on records that share one attribute map, followed
 					// by a filter on that label: a stage that writes through into the shared map changes WHICH later
